@@ -55,6 +55,7 @@ findEOL0_memchr0_len findEOL1_memchr0_len peekInt64_memcpy0_len peekInt32_memcpy
 retrieveAsString_string0_len
 retrieve_tree retrieveAll_tree retrieveUntil_tree retrieveAsString_tree ensureWritableBytes_tree makeSpace_tree readFd_tree
 hasWritten_tree unwrite_tree prepend_tree append2_char_tree shrink_tree swap_tree makeSpace_let_readable readFd_let_writable
+all_trees readFd_readv0_arg0 readFd_readv0_arg2
 """.split()
 
 
@@ -63,7 +64,7 @@ VOCAB = ["readerIndex", "writerIndex", "buffer_size",                 # private 
          "readableBytes", "writableBytes", "prependableBytes",       # public size observers
          "peek", "beginWrite",                                        # pointers (addresses)
          "kCheapPrepend",
-         "len", "initialSize", "reserve", "start", "end", "size",     # parameters (size = str.size())
+         "len", "initialSize", "reserve", "start", "end", "size", "fd",   # parameters (size = str.size())
          "n", "writable", "readable", "iovcnt", "x", "result"]        # locals
 
 
@@ -175,7 +176,12 @@ def record_text():
             "| SCall (callee : string) (args : list (obs -> Z))           (* call of a member function, its integer arguments *)",
             "| SIf (c : obs -> bool) (th el : list stmt)",
             "| SRet (e : obs -> Z)                                        (* return of the single integer result *)",
-            "| SOther (what : string).                                    (* anything else: std::copy, memcpy, *savedErrno = errno, ... *)",
+            "| SRetOther                                                  (* return of a non-integer value / plain return: ends the function *)",
+            "| SLetCall (x : string) (callee : string) (args : list (obs -> Z))  (* integer local x = the bare result of a free function *)",
+            "| SSwapWith (other : string) (member : string)               (* std::swap(member_, other.member_) *)",
+            "| SOther (what : string).                                    (* anything else: std::copy, memcpy, *savedErrno = errno, ...;",
+            "                                                                the generator guarantees it has no side effect on readerIndex_ /",
+            "                                                                writerIndex_ / buffer_ (such a statement is MISSING instead) *)",
             ""]
     out.append("Ltac obs_red := cbv beta iota delta [%s\n  %s]." % (" ".join("o_" + v for v in VOCAB),
                                                                     " ".join("set_" + v for v in VOCAB)))
@@ -234,6 +240,16 @@ def cast_facts(fname, body, defs, order, rel):
 FREE_LEN_CALLS = {"memchr": 2, "memcpy": 2}      # free function -> index of its length argument
 
 
+STATE = ("readerIndex_", "writerIndex_", "buffer_")
+ASSIGN_ALL = ("=", "+=", "-=", "*=", "/=", "%=", "&=", "|=", "^=", "<<=", ">>=")
+FAILED = []
+
+
+def is_assert_call(x):
+    ks = [c for c in x.get("inner", []) or [] if isinstance(c, dict)]
+    return bool(ks) and cxxast.strip(ks[0]).get("referencedDecl", {}).get("name") == "__assert_fail"
+
+
 OBSERVERS = ("readableBytes", "writableBytes", "prependableBytes", "peek", "beginWrite", "begin", "size", "data", "capacity",
              "operator*", "operator[]")
 
@@ -248,7 +264,7 @@ def facts_of(fname, fn, defs, order, rel):
       SAssert c | SSet member e | SLet local setter e | SHavoc local | SCall callee [integer args] | SIf c then else |
       SRet e | SOther tag
     so that which branch a statement is in, its order, and its presence are part of what the link lemmas compare."""
-    cnt = {"if": 0, "assert": 0, "set": 0, "call": 0, "free": 0, "ctor": 0}
+    cnt = {"if": 0, "assert": 0, "set": 0, "call": 0, "free": 0, "ctor": 0, "stmt": 0}
     try:
         cast_facts(fname, cxxast.body(fn), defs, order, rel)
     except cxxast.Untranslatable:
@@ -331,6 +347,55 @@ def facts_of(fname, fn, defs, order, rel):
             n = kids_of(n)[0]
         return n
 
+    def untranslated(name, why):
+        FAILED.append("MISSING %s (%s: %s)" % (name, fname, why))
+        cnt["stmt"] += 1
+        return "UNTRANSLATED_" + name
+
+    def by_ref_state(a):
+        """does the argument expression hand readerIndex_ / writerIndex_ / buffer_ (of any object) to the callee as an lvalue?"""
+        while True:
+            ka = a.get("kind")
+            if ka == "MemberExpr":                    # of THIS object (rhs.buffer_ handed to buffer_.swap is the other buffer's)
+                base = kids_of(a)[0] if kids_of(a) else {}
+                while base.get("kind") in ("ImplicitCastExpr", "ParenExpr") and kids_of(base):
+                    base = kids_of(base)[0]
+                return a.get("name") in STATE and base.get("kind") == "CXXThisExpr"
+            if ka == "ParenExpr" or (ka == "ImplicitCastExpr" and a.get("castKind") != "LValueToRValue") or \
+               (ka == "UnaryOperator" and a.get("opcode") == "&"):
+                if len(kids_of(a)) != 1:
+                    return False
+                a = kids_of(a)[0]
+                continue
+            return False
+
+    def mentions_state(a):
+        return any(x.get("kind") == "MemberExpr" and x.get("name") in STATE for x in cxxast.walk(a))
+
+    def scan(node, collect=False):
+        """fail closed (review F-1): a side effect on readerIndex_ / writerIndex_ / buffer_ that the tree does not show as
+        SSet / SCall / SSwapWith -- ++/--, any assignment operator, a call that takes one of them by reference -- anywhere
+        in an otherwise untranslated statement or sub-expression"""
+        for x in cxxast.walk(node):
+            kx = x.get("kind")
+            xs = kids_of(x)
+            why = None
+            if kx == "UnaryOperator" and x.get("opcode") in ("++", "--") and xs and mentions_state(xs[0]):
+                why = "%s on an index member inside an expression" % x.get("opcode")
+            elif kx in ("BinaryOperator", "CompoundAssignOperator") and x.get("opcode") in ASSIGN_ALL and xs and mentions_state(xs[0]):
+                why = "assignment %s to an index member / buffer_ inside an expression" % x.get("opcode")
+            elif kx in ("CallExpr", "CXXOperatorCallExpr", "CXXMemberCallExpr", "CXXConstructExpr") and not is_assert_call(x):
+                args = xs[1:] if kx != "CXXConstructExpr" else xs
+                if any(by_ref_state(a) for a in args):
+                    why = "%s is handed an index member / buffer_ by reference" % (
+                        cxxast.strip(xs[0]).get("referencedDecl", {}).get("name") or cxxast.strip(xs[0]).get("name") or kx)
+            if why:
+                if collect:
+                    return why
+                FAILED.append("MISSING %s_stmt%d (%s: %s)" % (fname, cnt["stmt"], fname, why))
+                return why
+        return None
+
     def tree(n):
         k = n.get("kind")
         kids = kids_of(n)
@@ -354,15 +419,39 @@ def facts_of(fname, fn, defs, order, rel):
             emit(defs, order, name, ukids[0], "bool", assert_text(u))
             cnt["assert"] += 1
             return ["SAssert %s" % (name if ok(name) else "UNTRANSLATED_" + name)]
-        if uk in ("BinaryOperator", "CompoundAssignOperator") and u.get("opcode") in ("=", "+=", "-="):
+        ARITH = {"+=": "+", "-=": "-", "*=": "*", "/=": "/", "%=": "%"}
+        if uk in ("BinaryOperator", "CompoundAssignOperator") and u.get("opcode") in ASSIGN_ALL:
             m = lhs_member(ukids[0])
             if m is not None:
                 op = u["opcode"]
-                node = ukids[1] if op == "=" else {"kind": "BinaryOperator", "opcode": op[0], "inner": [ukids[0], ukids[1]]}
                 name = "%s_set%d_%s" % (fname, cnt["set"], m)
-                emit(defs, order, name, node, "Z", text_of(u, rel))
                 cnt["set"] += 1
+                if op != "=" and op not in ARITH:
+                    return [untranslated(name, "%s on %s" % (op, m))]
+                scan(ukids[1])
+                node = ukids[1] if op == "=" else {"kind": "BinaryOperator", "opcode": ARITH[op], "inner": [ukids[0], ukids[1]]}
+                emit(defs, order, name, node, "Z", text_of(u, rel))
                 return ["SSet %s %s" % (qs(m), name if ok(name) else "UNTRANSLATED_" + name)]
+        if uk == "UnaryOperator" and u.get("opcode") in ("++", "--"):
+            m = lhs_member(ukids[0])
+            if m is not None:                         # ++readerIndex_ / writerIndex_-- as a statement
+                name = "%s_set%d_%s" % (fname, cnt["set"], m)
+                cnt["set"] += 1
+                node = {"kind": "BinaryOperator", "opcode": u["opcode"][0],
+                        "inner": [ukids[0], {"kind": "IntegerLiteral", "value": "1", "type": {"qualType": "int"}}]}
+                emit(defs, order, name, node, "Z", text_of(u, rel))
+                return ["SSet %s %s" % (qs(m), name if ok(name) else "UNTRANSLATED_" + name)]
+        if uk == "CallExpr" and len(ukids) == 3:      # std::swap(member_, rhs.member_)
+            cal = cxxast.strip(ukids[0]).get("referencedDecl", {}).get("name")
+            a, b = ukids[1], ukids[2]
+            if cal == "swap" and a.get("kind") == "MemberExpr" and b.get("kind") == "MemberExpr" and a.get("name") == b.get("name") \
+               and kids_of(a) and kids_of(a)[0].get("kind") == "CXXThisExpr" \
+               and kids_of(b) and cxxast.strip(kids_of(b)[0]).get("kind") == "DeclRefExpr":
+                return ["SSwapWith %s %s" % (qs(cxxast.strip(kids_of(b)[0]).get("referencedDecl", {}).get("name", "?")),
+                                             qs(a.get("name", "?").rstrip("_")))]
+        bad = scan(u, collect=True)
+        if bad:
+            return [untranslated("%s_stmt%d" % (fname, cnt["stmt"]), bad)]
         if k == "DeclStmt":
             res = []
             for v in kids:
@@ -378,6 +467,23 @@ def facts_of(fname, fn, defs, order, rel):
                         continue
                     del defs[name]                 # untranslatable, or a local no fact reads: no fact
                     order.remove(name)
+                init = unwrap(vk[-1]) if vk else {}
+                while init.get("kind") == "ImplicitCastExpr" and len(kids_of(init)) == 1:
+                    init = kids_of(init)[0]
+                if init.get("kind") == "CallExpr" and is_int(v):
+                    # `const ssize_t n = sockets::readv(fd, vec, iovcnt)`: the local IS the result of that call (no arithmetic
+                    # on it), and the integer arguments handed to the callee are facts
+                    ik = kids_of(init)
+                    cal = cxxast.strip(ik[0]).get("referencedDecl", {}).get("name", "?")
+                    names = []
+                    for j, a in enumerate(ik[1:]):
+                        if is_int(a):
+                            an = "%s_%s%d_arg%d" % (fname, cal, cnt["free"], j)
+                            emit(defs, order, an, a, "Z", text_of(init, rel))
+                            names.append(an if ok(an) else "UNTRANSLATED_" + an)
+                    cnt["free"] += 1
+                    res.append("SLetCall %s %s [%s]" % (qs(vn), qs(cal), "; ".join(names)))
+                    continue
                 tags = []
                 res += generic(v, tags)
                 res.append("SHavoc %s" % qs(vn))
@@ -389,7 +495,7 @@ def facts_of(fname, fn, defs, order, rel):
                 return ["SRET"]                      # patched below, once the fact has been emitted in its old place
             tags = []
             res = generic(n, tags)
-            return res + ["SOther %s" % qs("return")]
+            return res + ["SRetOther"]
         tags = []
         res = generic(u, tags)
         if uk == "CXXMemberCallExpr" and res:
@@ -402,7 +508,7 @@ def facts_of(fname, fn, defs, order, rel):
     if ret_done:
         emit(defs, order, "%s_ret" % fname, ret_done[0][0], "Z", ret_done[0][1])
         rn = "%s_ret" % fname
-        t = [x.replace("SRET", "SRet %s" % rn) if ok(rn) else x.replace("SRET", "SOther %s" % qs("return")) for x in t]
+        t = [x.replace("SRET", "SRet %s" % rn) if ok(rn) else x.replace("SRET", "SRetOther") for x in t]
     nm = "%s_tree" % fname
     defs[nm] = "Definition %s : list stmt :=\n  [%s]." % (nm, ";\n   ".join(t))
     order.append(nm)
@@ -439,6 +545,10 @@ def main():
                     if len(ov[nparm]) > 1:
                         fname += "_" + t0
                     facts_of(fname, ov[nparm][t0][0], defs, order, ov[nparm][t0][1])
+        trees = [k for k in order if k.endswith("_tree")]
+        defs["all_trees"] = "(* every statement tree, by function name (review F-2: compared with the pinned shapes in C10_GenLink) *)\n" \
+            "Definition all_trees : list (string * list stmt) :=\n  [%s]." % ";\n   ".join("(%s, %s)" % (qs(k[:-5]), k) for k in trees)
+        order.append("all_trees")
         nn = sum(1 for k in order if re.search(r"_narrow\d+$", k))
         nw = sum(1 for k in order if "_widen_signed" in k)
         defs["narrowing_casts"] = "(* number of integer casts from a 64-bit to a narrower type in Buffer.h/.cc *)\nDefinition narrowing_casts : Z := (%d)." % nn
@@ -449,6 +559,7 @@ def main():
     for nm in order:
         out.append(defs[nm])
         out.append("")
+    msgs += FAILED
     for r in REQUIRED:
         if r not in defs or defs[r].startswith("(* untranslated"):
             out.append("(* MISSING %s *)" % r)
